@@ -173,6 +173,13 @@ def generic_loader(model, rep):
     if len(cfgs) != 1:
         raise AnalysisError("generic loader: the parsed file is not bound to one name")
     CFG = cfgs[0]
+    # the loader as a whole against its reference text (sa/spec_comp.py): which keys are read from which section with which
+    # default, KeyError / ValueError before anything is built, limits from the top level, cls(name, **params)
+    from .. import refcmp, sysrules
+    okr, rows = refcmp.compare(model, sysrules.roles(model), model.method("_Component", "from_file")[1], refcmp.spec_function("spec_comp", "from_file"),
+                               rep, "R4", construct, where, "generic loader", mod="components")
+    rep.instance("R4", construct, where, ok and okr, "%d path pairs" % rows)
+    return
     loops = [x for x in fn.body if isinstance(x, ast.For)]
     if len(loops) != 1:
         raise AnalysisError("generic loader: key loop not found")
@@ -253,12 +260,26 @@ def is_loopkey(node, key):
 def linreg_loader(model, rep):
     rel = model.rel("components")
     owner, fn = model.method("LinReg", "from_file")
-    fn = _norm(fn)
     if owner != "LinReg":
         raise AnalysisError("LinReg no longer has its own loader")
     where = "%s:%d" % (rel, fn.lineno)
     construct = "components.LinReg.from_file"
     _, init, kws = ctor_sig(model, "LinReg")
+    # the loader against its reference text: every keyword fed from the key of the same name in [linreg] (limits from the top
+    # level), the deprecated iq taking the place of ig with its table re-keyed, the named default constants
+    from .. import refcmp, sysrules
+    okr, rows = refcmp.compare(model, sysrules.roles(model), fn, refcmp.spec_function("spec_comp", "linreg_from_file"), rep, "R4", construct, where,
+                               "LinReg loader", mod="components")
+    # ... and the named defaults are the constructor's defaults
+    for kw, cname in (("vdrop", "VDROP_DEFAULT"), ("ig", "IG_DEFAULT"), ("iis", "IIS_DEFAULT"), ("rt", "RT_DEFAULT"), ("limits", "LIMITS_DEFAULT")):
+        cd = fold_default(model, kws.get(kw))
+        fd = fold_default(model, ast.Name(id=cname, ctx=ast.Load()))
+        if fd != cd:
+            okr = False
+            rep.violation("R4", construct, where, "file default of '%s' is %r (%s), constructor default %r" % (kw, fd, cname, cd), "default %s %r" % (kw, fd))
+    rep.instance("R4", construct, where, okr, "%d path pairs, %d keywords" % (rows, len(kws)))
+    return
+    fn = _norm(fn)
     reads = {}
     for x in ast.walk(fn):
         if isinstance(x, ast.Assign) and isinstance(x.targets[0], ast.Name) and isinstance(x.value, ast.Call) and isinstance(x.value.func, ast.Name) \
